@@ -155,9 +155,9 @@ func generateNonCreateNonDropTableSqlSchemaDiff(ctx *sql.Context, formatter sql.
 		case diff.SchDiffAdded:
 			ddlStatements = append(ddlStatements, AlterTableAddIndexStmt(formatter, td.ToName.Name, idxDiff.To))
 		case diff.SchDiffRemoved:
-			ddlStatements = append(ddlStatements, AlterTableDropIndexStmt(formatter, td.FromName.Name, idxDiff.From))
+			ddlStatements = append(ddlStatements, AlterTableDropIndexStmt(formatter, td.ToName.Name, idxDiff.From))
 		case diff.SchDiffModified:
-			ddlStatements = append(ddlStatements, AlterTableDropIndexStmt(formatter, td.FromName.Name, idxDiff.From))
+			ddlStatements = append(ddlStatements, AlterTableDropIndexStmt(formatter, td.ToName.Name, idxDiff.From))
 			ddlStatements = append(ddlStatements, AlterTableAddIndexStmt(formatter, td.ToName.Name, idxDiff.To))
 		}
 	}
